@@ -300,6 +300,24 @@ def bezier_traces(ctx, rng):
     return dis
 
 
+def quad_bezier_trace(ctx, rng):
+    from pybaselines import spline as S
+    reads = []
+
+    class RL(list):
+        def __getitem__(self, i):
+            reads.append(int(i))
+            return list.__getitem__(self, i)
+    S._quadratic_bezier.py_func(RL([1.0, 2.0, 0.5]), np.linspace(0, 1, 5))
+    ctx.case(('qbez',), nontrivial=True)
+    ctx.count('kernel:_quadratic_bezier')
+    r = drive(['c05.qbez'])[0]
+    ctx.traces += 1
+    if parse_ints(r) != reads:
+        return [model_dis('model:qbez', f'_quadratic_bezier reads y_points{reads}, model {r}')]
+    return []
+
+
 def corner_cutting_premonitor(ctx, rng):
     """`corner_cutting` must call the kernel with control indices satisfying BezPre (pre_bezierSpline_of_guards);
     `np.flatnonzero` is compared with the model's"""
@@ -714,7 +732,7 @@ def averaged_interp(ctx, rng):
 
 def correspond_more(ctx, rng, names):
     dis = []
-    for fn in (band_traces, beads_premonitor, bezier_traces, corner_cutting_premonitor, loess_traces, guards_premonitor, averaged_interp):
+    for fn in (band_traces, beads_premonitor, bezier_traces, quad_bezier_trace, corner_cutting_premonitor, loess_traces, guards_premonitor, averaged_interp):
         dis += fn(ctx, rng)
     dis += interp_traces(ctx, rng, names)
     return dis
